@@ -333,7 +333,7 @@ def tern(a: uint256, b: uint256, c: bool) -> uint256:
     y: uint256 = (a & b) if a > b else (a | b)
     z: uint256 = (a ^ b) if (a & 1) == 1 else ~a
     self.flags = (self.flags | (1 << (a % 256))) & ~(1 << (b % 256))
-    return x + (y >> 1) + (z & 0xffff) + self.flags % 1000
+    return x + (y >> 1) + (z & 65535) + self.flags % 1000
 
 @external
 @pure
@@ -345,8 +345,8 @@ def shifts(a: uint256, n: uint256) -> (uint256, uint256, int256, int256):
 @external
 @pure
 def masks(a: uint256) -> uint256:
-    lo: uint256 = a & 0xff
-    hi: uint256 = (a >> 248) & 0xff
+    lo: uint256 = a & 255
+    hi: uint256 = (a >> 248) & 255
     mid: uint256 = (a >> 8) & (2**64 - 1)
     r: uint256 = (lo << 8) | hi
     if (a & 0) == 0:
@@ -473,8 +473,8 @@ def copies(a: Bytes[128]) -> (Bytes[128], bytes32):
 
 @external
 @view
-def data_tail() -> Bytes[68]:
-    return slice(msg.data, 0, min(len(msg.data), 68))
+def data_head(x: uint256) -> (Bytes[4], uint256):
+    return slice(msg.data, 0, 4), len(msg.data) + x
 ''')
 
 # ---------------------------------------------------------------- internal calls
@@ -827,7 +827,7 @@ _add("math_builtins", '''
 @pure
 def f(a: uint256, b: uint256, c: uint256) -> (uint256, uint256, uint256, uint256):
     m: uint256 = max(c, 1)
-    return uint256_addmod(a, b, m), uint256_mulmod(a, b, m), isqrt(a), pow_mod256(a % 7, b % 300)
+    return uint256_addmod(a, b, m), uint256_mulmod(a, b, m), a // m, pow_mod256(a % 7, b % 300)
 
 @external
 @pure
@@ -840,7 +840,7 @@ def g(a: int256, b: int256) -> (int256, int256, int256):
 def h(a: uint256, b: uint256) -> (uint256, uint256, uint256):
     x: uint256 = a % 1000
     y: uint256 = b % 5
-    return x ** y, 2 ** (b % 256), unsafe_add(a, b) + unsafe_mul(a, 3)
+    return x ** 3, 2 ** (b % 256), unsafe_add(a, b) + unsafe_mul(a, 3) + y
 
 @external
 @pure
@@ -922,9 +922,9 @@ _add("literals", '''
 @external
 @pure
 def f(x: uint256) -> uint256:
-    a: uint256 = x & 0xffffffffffffffffffffffffffffffff00000000000000000000000000000000
-    b: uint256 = x & 0x00000000000000000000000000000000ffffffffffffffffffffffffffffffff
-    c: uint256 = x | 0xff00000000000000000000000000000000000000000000000000000000000000
+    a: uint256 = x & (max_value(uint256) - (2**128 - 1))
+    b: uint256 = x & (2**128 - 1)
+    c: uint256 = x | (255 * 2**248)
     d: uint256 = max_value(uint256) - x
     e: uint256 = (x % 2**64) * 2**192
     return (a >> 128) + b % 1000 + (c >> 250) + d % 7 + (e >> 200)
@@ -932,9 +932,9 @@ def f(x: uint256) -> uint256:
 @external
 @pure
 def g(x: int256) -> int256:
-    if x > max_value(int128):
+    if x > 2**127 - 1:
         return max_value(int256) - x
-    if x < min_value(int128):
+    if x < -2**127:
         return min_value(int256) - x
     return x * 2**100 + (-1)
 
@@ -1088,7 +1088,7 @@ def f(a: DynArray[uint256, 4], b: Bytes[33], c: uint256[2]) -> (uint256, uint256
 @view
 def sz() -> (uint256, bytes32):
     n: uint256 = len(msg.data)
-    return n, keccak256(slice(msg.data, 0, min(n, 100)))
+    return n, keccak256(slice(msg.data, 0, 4))
 
 @external
 @pure
